@@ -307,6 +307,21 @@ Proof.
     apply Z.le_lt_trans with p; [|lia]. apply Z.div_le_upper_bound; nia.
 Qed.
 
+(* the block a voxel lies in: floor division, also for negative coordinates *)
+Definition block_of (size p : pt) : pt := (px p / px size, py p / py size, pz p / pz size).
+Definition pt_safe (p : pt) : Prop :=
+  - 1073741824 <= px p < 1073741824 /\ - 1073741824 <= py p < 1073741824 /\ - 1073741824 <= pz p < 1073741824.
+Definition bsize_ok (s : pt) : Prop :=
+  1 <= px s <= 1073741824 /\ 1 <= py s <= 1073741824 /\ 1 <= pz s <= 1073741824.
+
+Lemma chunk_pt_floor p size : pt_safe p -> bsize_ok size -> chunk_pt p size = Ok (block_of size p).
+Proof.
+  destruct p as [[x y] z], size as [[sx sy] sz]. unfold pt_safe, bsize_ok, block_of, px, py, pz; cbn [fst snd].
+  intros Hp Hs. rewrite chunk_gen_eq. unfold px, py, pz; cbn [fst snd].
+  replace ((sx =? 0) || (sy =? 0) || (sz =? 0)) with false by lia.
+  rewrite !chunk1_floor by (unfold is32; change (2^31) with 2147483648; lia). reflexivity.
+Qed.
+
 (* the exact boundary and the non-canonical "-0" code *)
 Lemma blockindex_boundary_examples :
   decode_block_index (encode_block_index (1048576, 0, 0)) = (0, 0, 0)
